@@ -464,6 +464,26 @@ func (d *Driver) Next() Event {
 				}
 			}
 			return Event{Kind: k, Creator: who, Val: val, Amount: amt}
+		case "Redelegate":
+			var mine []PDeleg
+			for _, x := range d.St.Delegs {
+				if x.D != "vo1" && x.D != "vo2" {
+					mine = append(mine, x)
+				}
+			}
+			if len(mine) == 0 {
+				continue
+			}
+			x := mine[d.R.Intn(len(mine))]
+			dst := "v1"
+			if x.V == "v1" || d.R.Intn(6) == 0 {
+				dst = "v2"
+			}
+			amt := x.Shares
+			if d.R.Intn(2) == 0 && x.Shares > 1 {
+				amt = x.Shares / 2
+			}
+			return Event{Kind: "Redelegate", Creator: x.D, Val: x.V, Val2: dst, Amount: amt}
 		case "ResetSuper":
 			n := d.pick(d.P.Nodes)
 			st := []int64{15, 15, 15, 13, 7, 0}[d.R.Intn(6)]
